@@ -5,10 +5,18 @@ import vrt_runner, mu_common
 
 PID = "C12"
 PROP_V = "Props/Properties_C12.v"
-GEN_MODULES = ["Consts", "Sites"]
+GEN_MODULES = ["Consts", "Sites", "Time"]
 FLOW_FILES = ['nsync_semaphore_futex.c']
 REPLAY_HINT = "VRT_SEED=<seed> VRT_INJECT=<pct> _work/h/sem_mix  (add VRT_TRACE=<file>; replay through the model with coq/_rp_sem_replay/sem_replay <file> coq/Gen/Sites.json)"
-TRUSTED_BASE = ["the kernel futex contract is MODELLED (harness/rt/vrt.c and Model/SemModel.v): atomic compare-and-block, FUTEX_WAKE wakes "
+PARTIAL = ["Progress is proved as a safety decomposition (C12_no_lost_post: a sleeping owner with a positive count has a wake-up pending; C12_solo: an owner "
+           "awake inside a call completes it within 4 own steps; C12_future: an idle owner's next call returns 0 in 2 steps without entering the kernel; "
+           "C12_conservation: successful Ps + count + pending posts = posts made); the temporal statement under fair scheduling (Definition "
+           "C12_fair_wakeup_full) is not proved",
+           "one owner per semaphore (nsync's contract: only the waiter's own thread P's its semaphore); several concurrent P callers are not modelled"]
+TRUSTED_BASE = ["the clock is read in one model step and compared in a later one; the comparison is the translated nsync_time_cmp of Gen/Time.v; the replayer "
+                "checks the value read (clock event) against the model's and takes the decision step when the owner is next heard of, so the decision is tied "
+                "to the trace only through its outcome (retry load / ETIMEDOUT return value)",
+                "the kernel futex contract is MODELLED (harness/rt/vrt.c and Model/SemModel.v): atomic compare-and-block, FUTEX_WAKE wakes "
                 "at most n sleepers, absolute CLOCK_REALTIME deadline, EINVAL for an invalid timespec, arbitrary EINTR / early ETIMEDOUT",
                 "Model/SemModel.v control skeleton: hand-written, validated by lock-step replay (replay/sem_replay.ml, ExtrOcamlBasic only)"]
 
